@@ -582,3 +582,5 @@ def run(chk):
     from .c03 import rule_blocking_scan
     chk.guard(rule_blocker_recorded, chk, prog)
     chk.guard(rule_blocking_scan, chk, prog)
+    from .c03 import rule_enclosing_ignored
+    chk.guard(rule_enclosing_ignored, chk, prog)
